@@ -45,7 +45,7 @@ CLAIMED = {
    text="dbRumperExecutor.exec with fetcher, writer, receiver and the statistics loop as goroutines against a model source (INFO keyspace, SELECT, pipelined DUMP/PTTL over 2 databases, 1..2 scan pages incl. an empty one, keys that vanished before DUMP, no-expiry and symbolic positive PTTL, symbolic payloads, big-key expansion through RestoreBigkey) and two model-target connections sharing a keyspace, batch sizes 1..2, key_exists none/rewrite, target.db, db and key filters, big and ordinary keys mixed in a non-zero database; the key-file scanner alone: every passing existing key arrives with payload/elements, ttl (none stays none) and database; vanished keys are skipped; the executor terminates (no deadlock)",
    note=NOTE_COMMON + "delay-bounded scheduling (default round-robin successor, <= 1 deviation quick / 2 thorough); the statistics ticker fires only at quiescence; the SCAN reply parser (reflection) is replaced by a harness scanner; target empty at start"),
  "C17": dict(
-   text="restricted claim: CmdDecode.decode with its fan-out/fan-in goroutines and decoderMain run from SSA (parallel 1..2, delay-bounded schedules) on entries of every classic type and a ziplist-encoded hash with symbolic keys, values (non-printable and non-UTF-8 bytes included), score bits, several keys plus Lua scripts at every position, and one run with a text above 1 MiB next to a small key on two workers: one record per element with database, type, expiry, list index, base64 fields equal to base64 of the exact bytes (real encoding/base64 code), score numerically equal, nothing omitted/duplicated/attributed to another key under every schedule explored, the run ends",
+   text="restricted claim: CmdDecode.decode with its fan-out/fan-in goroutines and decoderMain run from SSA (parallel 1..2, delay-bounded schedules) on entries of every classic type and a ziplist-encoded hash with symbolic keys, values (non-printable and non-UTF-8 bytes included), score bits, several keys plus Lua scripts at every position, one run with a text above 1 MiB next to a small key on two workers, and one with a progress timer firing at a scheduler-chosen moment while the output write is a scheduling point: one record per element with database, type, expiry, list index, base64 fields equal to base64 of the exact bytes (real encoding/base64 code), score numerically equal, nothing omitted/duplicated/attributed to another key under every schedule explored, the run ends",
    note=NOTE_COMMON + "encoding/json.Marshal is a contract model (field order, unescaped strings, NaN/Inf => error): that the printed text is valid JSON is outside the claim; file I/O stubbed; one known finding (NaN/Inf score aborts the run)"),
  "C18": dict(
    text="offset lemmas (roffset/woffset) for arbitrary 64-bit positions; one-step refinement of the memory and file backed stores (readSomeAt from an arbitrary offset and write position: exact bytes or ErrInvalidOffset exactly when overwritten/future; writeSome; dataRange) against a ghost stream; sequential API behaviour (Reader, SeekTo/IsValid, wrap beyond capacity, close); protocol runs with one writer and up to two blocked readers under every interleaving (Broadcast wake-up, close wakes all with an error, no deadlock)",
